@@ -184,7 +184,8 @@ fn handle_item(
                         match sourcefile.parse()? {
                             Parsed::Scss(items) => {
                                 let mut thead = CssData::new();
-                                let module = ScopeRef::sub(scope.clone());
+                                let module =
+                                    ScopeRef::sub_import(scope.clone());
                                 let selectors = scope.get_selectors();
                                 if !selectors.is_root() {
                                     let mut rule = thead
